@@ -385,6 +385,80 @@ theorem C16_viewer_read_block {stmts : List Stmt} {s : St} (h : build stmts = .o
       rw [e1, e2]
   · have := inv.two id; rw [ho] at this; simp at this
 
+/-- the first-index map (`_stmt_id_to_index`, behind `get_stmt_by_id`, `contains_stmt_id`, `__contains__`)
+holds for every id the first position a scan finds, and nothing for ids that do not occur -/
+theorem C16_viewer_first_index_is_scan {stmts : List Stmt} {s : St} (h : build stmts = .ok s) (id : Int) :
+    (lookupFirst s.first id).map (fun e => e.1) = (occ stmts id).head? := by
+  obtain ⟨inv, _⟩ := build_inv h
+  cases hl : lookupFirst s.first id with
+  | none => rw [(inv.firstNone id).1 hl]; rfl
+  | some e =>
+    obtain ⟨i, k⟩ := e
+    obtain ⟨⟨t, ht⟩, _⟩ := inv.firstSome id i k hl
+    rw [ht]; rfl
+
+/-- **C16 (viewer: `append_other` re-roots the receiver).**  Whatever the receiver was — a root, a
+block view, a copy — a successful `append_other` makes it a root viewer (window `(-1, n)`) over
+exactly the statements the two viewers showed, with the block geometry of a fresh constructor run on
+that list (so the scan theorems above apply to it); a refused one leaves the receiver as it was. -/
+theorem C16_viewer_append_reroots (v o : Viewer) :
+    (∀ v', Viewer.appendOther true v o = (v', none) →
+      v'.coll = v.visible ++ o.visible ∧ v'.range = (-1, (v'.coll.length : Int)) ∧
+      (v'.coll = [] ∧ v'.st = St.init ∨ build (v'.coll.map (fun s => s.core)) = .ok v'.st)) ∧
+    (∀ v' e, Viewer.appendOther true v o = (v', some e) → v' = v) := by
+  unfold Viewer.appendOther Viewer.ofList
+  constructor
+  · intro v' hv
+    by_cases he : (v.visible ++ o.visible).isEmpty = true
+    · simp only [he, if_true, Prod.mk.injEq, and_true] at hv
+      subst hv
+      have : v.visible ++ o.visible = [] := by simpa using he
+      exact ⟨this.symm ▸ rfl, rfl, Or.inl ⟨rfl, rfl⟩⟩
+    · simp only [he, Bool.false_eq_true, if_false] at hv
+      cases hb : build ((v.visible ++ o.visible).map (fun s => s.core)) with
+      | ok s =>
+        simp only [hb, Prod.mk.injEq, and_true] at hv
+        subst hv
+        exact ⟨rfl, rfl, Or.inr hb⟩
+      | error e => rw [hb] at hv; simp at hv
+  · intro v' e hv
+    by_cases he : (v.visible ++ o.visible).isEmpty = true
+    · simp [he] at hv
+    · simp only [he, Bool.false_eq_true, if_false] at hv
+      cases hb : build ((v.visible ++ o.visible).map (fun s => s.core)) with
+      | ok s => rw [hb] at hv; simp at hv
+      | error e' =>
+        simp only [hb, if_true, Prod.mk.injEq] at hv
+        exact hv.1.symm
+
+def vs (l : List (Kind × Int)) : List VStmt :=
+  (l.zip (List.range l.length)).map (fun x => { core := ⟨x.1.1, x.1.2⟩, uid := x.2, tag := 0, label := x.2 })
+
+/-- `d1 [2 d3 [4 x5 4] 2] d6 [7 7]` -/
+def unit0 : List VStmt :=
+  vs [(.other, 1), (.start, 2), (.other, 3), (.start, 4), (.other, 5), (.fin, 4), (.fin, 2), (.other, 6),
+      (.start, 7), (.fin, 7)]
+
+/-- non-vacuity of `C16_viewer_append_reroots`: a block view appended with an empty viewer becomes a
+root over its four statements, positions now count from 0 -/
+example :
+    (stepV true ((stepV true ((stepV true ((stepV true [] (.new unit0)).1) (.read 0 (some 2))).1) .empty).1)
+        (.append 1 2)).1[1]?.map (fun v => (v.range, v.len, (v.stmtByPos 0).map (fun s => s.core.id),
+          v.blockStmtIds (some 4), v.boundary [some 4, some 2]))
+      = some ((-1, 4), 4, some 3, [5], 3) := by decide
+
+/-- **the pinned commit violates it** (frozen variant `atomic = false`): a block view appended with its
+own root is refused (`duplicate stmt_id`), and the receiver is left showing nothing while
+`get_block_stmt_ids` / `boundary_of_multi_blocks` still answer from the half-built geometry.  The
+repaired variant leaves the receiver untouched. -/
+theorem C16_unfixed_counterexample_viewer_append :
+    let slots := (stepV false ((stepV false [] (.new unit0)).1) (.read 0 (some 2))).1
+    let after0 := stepV false slots (.append 1 0)
+    let after1 := stepV true slots (.append 1 0)
+    after0.2 = .err .dup ∧
+    after0.1[1]?.map (fun v => (v.len, v.blockStmtIds (some 4), v.boundary [some 4])) = some (0, [5], 3) ∧
+    after1.2 = .err .dup ∧ after1.1 = slots := by decide
+
 def okOf (r : Except BErr St) : Option St := match r with | .ok s => some s | .error _ => none
 def errOf (r : Except BErr St) : Option BErr := match r with | .ok _ => none | .error e => some e
 
